@@ -21,7 +21,7 @@ def run(env, rep):
         "is read (computed from the guarding comparisons, insensitive to < vs <=); R3: continuation chunks inherit the first "
         "chunk's timestamp field, the header remembered per chunk stream is the header that was emitted, and the reader stores "
         "the timestamp field only from the 24-bit value it read; R4: every path of serialize to Ok(Packet) emits at least one "
-        "chunk; R5: a format-0 header carries the absolute timestamp and the other formats the difference to the previous header of the chunk stream, on both sides.  Not decided: the round trip over all histories, exact payload slicing.")
+        "chunk; R5: a format-0 header carries the absolute timestamp and the other formats the difference to the previous header of the chunk stream, on both sides; R6: a stage of the reader that returns 'not enough bytes' has no observable effect (C15 R1), so the result does not depend on how the bytes are split.  Not decided: the round trip over all histories, exact payload slicing.")
     rep.assumptions = ["byteorder's write/read_uN::<E> encode the named width and byte order"]
     m = chunk.ChunkModel(env, rep, "C01.anchors")
     if not m.ok:
@@ -125,6 +125,8 @@ def run(env, rep):
     rep.check("C01.R3", "reader:timestamp-field-from-read", not bad and nstores >= 3, "the reader stores timestamp_field only from the 24-bit value it just read (%d stores)" % nstores,
               "the reader's timestamp_field (which governs the extended timestamp of later chunks) is also written from something else: %s" % sorted(set(bad)), m.b["get_next"].span)
     chunk.timestamp_semantics(m, rep, "C01.R5")
+    from . import C15
+    C15.suspend_paths(env, rep, "C01.R6", m)
     # ------------------------------------------------------------------ R4
     se = m.b["serialize"]
     tr = grammar.trace(env, se.key, "w")
